@@ -160,9 +160,37 @@ theorem norm_keeps_profile (w : List ℝ) (i j : Nat) (hi : i < w.length) (hj : 
     (normIntensity w)[i]'(by simpa [normIntensity] using hi) * w[j] = (normIntensity w)[j]'(by simpa [normIntensity] using hj) * w[i] := by
   simp only [normIntensity, List.getElem_map]; ring
 
+
+open AbtemVerif.Gen.DistributionsR in
+/-- **The weights of a Gaussian factor, composed**: whatever the (non-empty) list of sample values, the generated profile
+followed by the 'intensity' normalisation has unit norm, and followed by the 'amplitude' normalisation sums to one. -/
+theorem gaussian_weights_normalised (vs : List ℝ) (hne : vs ≠ []) (c s : ℝ) :
+    ((normIntensity (vs.map fun v => gaussWeight v c s)).map fun x => x ^ 2).sum = 1 ∧
+    (normAmplitude (vs.map fun v => gaussWeight v c s)).sum = 1 := by
+  have hpos : ∀ x ∈ vs.map (fun v => gaussWeight v c s), 0 < x := by
+    intro x hx
+    obtain ⟨v, _, rfl⟩ := List.mem_map.mp hx
+    exact (gaussian_weight_pos_symm v c s).1
+  have hne' : vs.map (fun v => gaussWeight v c s) ≠ [] := by simpa using hne
+  refine ⟨norm_intensity _ hne' hpos, norm_amplitude _ ?_⟩
+  have : 0 < (vs.map fun v => gaussWeight v c s).sum := by
+    cases vs with
+    | nil => exact absurd rfl hne
+    | cons a t =>
+      simp only [List.map_cons, List.sum_cons]
+      have ha := (gaussian_weight_pos_symm a c s).1
+      have ht : 0 ≤ (t.map fun v => gaussWeight v c s).sum := by
+        apply List.sum_nonneg
+        intro x hx
+        obtain ⟨v, _, rfl⟩ := List.mem_map.mp hx
+        exact le_of_lt (gaussian_weight_pos_symm v c s).1
+      linarith
+  exact ne_of_gt this
+
 /-! ### negation, division, products -/
 
-/-- **Negation negates the values only** -/
+/-- what the model's `neg` is (definitional restatement; that `DistributionFromValues.__neg__` behaves like this model — incl. not
+mutating the receiver — rests on the differential correspondence and the conformance oracle, not on this theorem) -/
 theorem neg_values_only {ω} (d : Distributions.Dist ω) :
     (neg d).values = d.values.map (fun v => -v) ∧ (neg d).weights = d.weights ∧ (neg d).ensembleMean = d.ensembleMean :=
   ⟨rfl, rfl, rfl⟩
@@ -235,6 +263,48 @@ theorem outer_norms (a b : List ℝ) :
       simp only [List.map_id'] at this
       simp only [List.map_cons, List.sum_cons, ih, this]
       ring
+
+
+lemma sum_flatMap_mul (w r : List ℝ) (f : ℝ → ℝ) (hf : ∀ u v, f (u * v) = f u * f v) :
+    ((w.flatMap fun x => r.map fun y => x * y).map f).sum = (w.map f).sum * (r.map f).sum := by
+  induction w with
+  | nil => simp
+  | cons x t ih =>
+    simp only [List.flatMap_cons, List.map_append, List.sum_append, ih, List.map_cons, List.sum_cons,
+      sum_outer_row x r f hf]
+    ring
+
+/-- **Product distributions with any number of factors** (after the repair of `MultidimensionalDistribution.weights`,
+whose array now has one axis per factor): the row-major weights have `∏ nₖ` entries, sum to the product of the factors'
+sums and their squares sum to the product of the factors' sums of squares — products of normalised factors are normalised. -/
+theorem outerFlat_norms (ws : List (List ℝ)) :
+    (outerFlat ws).length = (ws.map List.length).prod ∧
+    (outerFlat ws).sum = (ws.map List.sum).prod ∧
+    ((outerFlat ws).map fun x => x ^ 2).sum = (ws.map fun w => (w.map fun x => x ^ 2).sum).prod := by
+  induction ws with
+  | nil => simp [outerFlat]
+  | cons w rest ih =>
+    obtain ⟨h1, h2, h3⟩ := ih
+    refine ⟨?_, ?_, ?_⟩
+    · simp only [outerFlat, List.map_cons, List.prod_cons, ← h1]
+      induction w with
+      | nil => simp
+      | cons x t iht => simp only [List.flatMap_cons, List.length_append, List.length_map, iht, List.length_cons]; ring
+    · have := sum_flatMap_mul w (outerFlat rest) (fun u => u) (fun u v => rfl)
+      simp only [List.map_id'] at this
+      simp only [outerFlat, List.map_cons, List.prod_cons, this, h2]
+    · simp only [outerFlat, List.map_cons, List.prod_cons,
+        sum_flatMap_mul w (outerFlat rest) (fun u => u ^ 2) (fun u v => mul_pow u v 2), h3]
+
+/-- the two-factor case is the outer product of `outer_norms` flattened row-major -/
+theorem outerFlat_two (a b : List ℝ) : outerFlat [a, b] = (outer a b).flatten := by
+  have hb : outerFlat [b] = b := by
+    simp only [outerFlat, List.map_cons, List.map_nil, mul_one]
+    induction b with
+    | nil => rfl
+    | cons y t ih => simp [List.flatMap_cons, ih]
+  have : outerFlat [a, b] = a.flatMap fun x => (outerFlat [b]).map fun y => x * y := rfl
+  rw [this, hb, outer, List.flatMap_def]
 
 /-! ### non-vacuity -/
 example : (match uniform 0 1 5 true false with | .ok d => d.values == [0, 1/4, 1/2, 3/4, 1] && d.weights == [1, 1, 1, 1, 1] | _ => false) = true := by
